@@ -7,7 +7,7 @@ var c03GC = &histCheck{
 	property: "C03",
 	name:     "TestVerif_C03_GC",
 	profile: func() *genProfile {
-		p := &genProfile{minOps: 6, maxOps: 70, reopen: true, gc: true, tinyFiles: true, maxKeys: 12}
+		p := &genProfile{minOps: 6, maxOps: 70, reopen: true, gc: true, park: true, tinyFiles: true, maxKeys: 12}
 		if thorough() {
 			p.maxOps = 150
 		}
